@@ -10,7 +10,10 @@ NPOOL = 6
 
 
 def rand_op(r):
-    k = r.randrange(12)
+    k = r.randrange(13)
+    if k == 12:
+        ids = r.sample(IDS, r.randrange(0, 4))
+        return '(loadjson %s)' % ' '.join('(%s %d)' % (S(i), r.randrange(NPOOL)) for i in ids)
     if k <= 2: return '(add %s %d)' % (S(r.choice(IDS)), r.randrange(NPOOL))
     if k == 3: return '(remove %s)' % S(r.choice(IDS))
     if k == 4: return '(get %s)' % S(r.choice(IDS))
@@ -32,7 +35,7 @@ def run(ctx):
     n = 0
     # exhaustive short histories over a small alphabet, each followed by the observers
     alpha = ['(add %s 0)' % S('p'), '(add %s 1)' % S('p'), '(add %s 2)' % S('q'), '(remove %s)' % S('p'), '(remove %s)' % S('q'),
-             '(json)', '(cedarrt)', '(fromdoc 3 0)', '(mapmut %s 4)' % S('p')]
+             '(json)', '(cedarrt)', '(fromdoc 3 0)', '(mapmut %s 4)' % S('p'), '(loadjson (%s 5))' % S('q'), '(loadjson)']
     obs = '(get %s) (get %s) (all) (cedar) (authz)' % (S('p'), S('q'))
     maxlen = 3 if ctx.tier == 'quick' else 4
     for ln in range(0, maxlen + 1):
@@ -43,7 +46,7 @@ def run(ctx):
         n += 1
         ops = [rand_op(r) for _ in range(r.randrange(1, 25))]
         cases.append('(case h%d pshist (ops %s))' % (n, ' '.join(ops)))
-    ctx.rule = ('all histories of <=%d operations over {add/replace p,q; remove p,q; JSON round trip; Cedar text reload; load document; '
+    ctx.rule = ('all histories of <=%d operations over {add/replace p,q; remove p,q; JSON round trip; Cedar text reload; load document; UnmarshalJSON into the live set; '
                 'mutate a Map() copy}, each followed by get/all/marshal/authorize, plus random histories of 1-24 operations over 7 ids '
                 '(incl. policy10 vs policy2 and the empty id) and a pool of 6 policies; every operation result compared; '
                 'non-trivial = the history contains at least one mutation' % maxlen)
